@@ -58,6 +58,11 @@ CHECKS = {
         note="Coq kernel + vm_compute; model Model/Convert.v; column values are opaque in the model, positional write-through of Column.values and data independence of the copy are checked by the oracle (and C05).",
         design="DESIGN.md section 5/C06",
     ),
+    "C05": dict(
+        text="Theorems over a heap of identified metadata objects: the metadata of a pandas result and of a re-wrapped table consists of freshly allocated objects only and building it leaves all existing objects untouched; separation of any population of frames is preserved when such a frame joins; between separated frames no mutation (unit, destination, name, delete/add column) changes any observation of another frame; name/destinations/derived origin propagation; single-source unit preservation; refusal on unit conflict; no-source fallback. Correspondence replays every observed __finalize__ call, re-wrap and mutation and compares all live frames after every action; the oracle additionally checks object-identity disjointness in the implementation.",
+        note="Coq kernel + vm_compute; model Model/Heap.v (+ Frame.v for the dtype check); H_pandas_result (which frames pandas passes to __finalize__ is observed); TableOrigin immutable; multi-source unit agreement proved as the local conflict step, exercised by correspondence.",
+        design="DESIGN.md section 5/C05",
+    ),
 }
 ALL = [f"C{n:02d}" for n in range(1, 21)]
 NOT_YET = {p: "check not built yet in this revision (planned, see DESIGN.md section 5); not a claim that the technique cannot apply" for p in ALL if p not in CHECKS}
